@@ -15,6 +15,27 @@ fn msg_pool() -> &'static Vec<&'static [u8]> {
     P.get_or_init(|| (0..512).map(|i| leak(format!("m{}", i).into_bytes())).collect())
 }
 
+/// every standard error the library defines (found by sweeping the lookup over all 16-bit numbers)
+fn all_standard() -> &'static Vec<ErrorCode> {
+    use std::sync::OnceLock;
+    static P: OnceLock<Vec<ErrorCode>> = OnceLock::new();
+    P.get_or_init(|| (i16::MIN..=i16::MAX).filter_map(ErrorCode::get_error).collect())
+}
+
+/// a 'static copy of a message (interned: one leak per distinct text)
+fn leak_once(m: &[u8]) -> &'static [u8] {
+    use std::collections::HashMap;
+    use std::sync::{Mutex, OnceLock};
+    static P: OnceLock<Mutex<HashMap<Vec<u8>, &'static [u8]>>> = OnceLock::new();
+    let mut g = P.get_or_init(|| Mutex::new(HashMap::new())).lock().unwrap();
+    if let Some(x) = g.get(m) {
+        return x;
+    }
+    let l = leak(m.to_vec());
+    g.insert(m.to_vec(), l);
+    l
+}
+
 fn item_of(e: &Error) -> QItem {
     QItem { code: e.get_code(), msg: e.get_message().to_vec(), ext: e.get_extended().map(|x| x.to_vec()) }
 }
@@ -81,15 +102,24 @@ fn drive<Q: ErrorQueue>(rng: &mut Rng, ctx: &mut Ctx, q: &mut Q, cap: Option<usi
                     _ => (uid % 32000) as i16 + 100,
                 };
                 let m = pool[uid % pool.len()];
+                let mut plain_standard = false;
                 let mut e = if rng.chance(1, 8) {
-                    // a standard error (not unique by itself; made unique through the extended text below)
-                    let std = [ErrorCode::SyntaxError, ErrorCode::DataOutOfRange, ErrorCode::QueueOverflow, ErrorCode::NoError, ErrorCode::OperationComplete];
-                    Error::new(*rng.pick(&std))
+                    // a standard error (not unique by itself; usually made unique through the extended text below):
+                    // any of the library's standard codes, as a device reports them
+                    let std = all_standard();
+                    plain_standard = rng.chance(1, 3);
+                    Error::new(std[rng.usize(std.len())])
                 } else {
                     Error::custom(code, m)
                 };
-                if rng.chance(1, 3) || !matches!(item_of(&e).msg.first(), Some(b'm')) {
+                if !plain_standard && (rng.chance(1, 3) || !matches!(item_of(&e).msg.first(), Some(b'm'))) {
                     e = e.extended(pool[(uid * 7 + 3) % pool.len()]);
+                }
+                // device-dependent info that happens to repeat the description (a wrapped inner error does that)
+                if rng.chance(1, 12) {
+                    let own: &'static [u8] = leak_once(e.get_message());
+                    e = e.extended(own);
+                    ctx.count("pushes.extended-text-equal-to-the-description");
                 }
                 // most errors are unique so that order is unambiguous; now and then the very same error is reported
                 // again (a repeated fault), which a FIFO keeps as a second entry and which overflows like any other
